@@ -227,6 +227,10 @@ def splice_literals(t: Any, _memo: Optional[Dict[int, Any]] = None) -> Any:
     r = t if all(a is b for a, b in zip(kids, t)) else tuple(kids)
     if len(r) >= 4 and r[0] == "app" and isinstance(r[1], tuple) and len(r[1]) == 3 and r[1][0] == "attr" and isinstance(r[1][1], tuple) and r[1][1][:1] == ("param",) and r[1][2] in ("visit", "generic_visit") and len(r[2]) == 1 and not r[3]:
         r = ("visit" if r[1][2] == "visit" else "gvisit", r[2][0])
+    elif len(r) in (4, 5) and r[0] == "app" and r[1] == ("global", "builtins.map") and len(r[2]) == 2 and not r[3] and isinstance(r[2][1], tuple) and r[2][1][:1] in (("tuple",), ("list",)):
+        # map(f, (a, b)) over a literal: [f(a), f(b)] wherever its elements are what matters (it is only ever spliced or listed)
+        f_ = r[2][0]
+        r = ("list", tuple(("app", f_, (x,), ()) for x in r[2][1][1]))
     elif len(r) == 4 and r[0] == "comp" and r[1] == "ListComp" and len(r[3]) == 1:
         it, conds = r[3][0]
         if isinstance(it, tuple) and it and it[0] in ("tuple", "list") and not conds:
@@ -755,6 +759,10 @@ class FuncAnalysis:
         if not isinstance(t, tuple) or not t:
             return t
         r = tuple(self._reduce_getattr(x) for x in t)
+        if len(r) == 3 and r[0] == "attr" and r[2] in ("value", "name") and isinstance(r[1], tuple) and r[1] and r[1][0] in ("global", "attr"):
+            red = self._attr(r[1], r[2], 0)
+            if red[0] == "const":
+                return red  # Kind.MEMBER.value once the parameter is known to be that member
         if len(r) in (4, 5) and r[0] == "app" and r[1] == ("global", "builtins.getattr") and len(r[2]) in (2, 3) and not r[3]:
             key = self._global_const(r[2][1]) if isinstance(r[2][1], tuple) and r[2][1] else ("top",)
             if key[0] == "const" and isinstance(key[1], str):
@@ -867,6 +875,24 @@ class FuncAnalysis:
     def _attr(self, t: Term, name: str, depth: int) -> Term:
         if t[0] == "phi":
             return phi([self._attr(a, name, depth) for a in t[1]])
+        if name in ("value", "name") and t[0] == "attr" and isinstance(t[1], tuple) and t[1][:1] == ("global",) and isinstance(t[2], str):
+            # Kind.MEMBER.value / .name of an Enum class of the package whose member is bound to a literal
+            ec = self.model.lookup_target(t[1][1])
+            if isinstance(ec, ClassInfo) and any(b.split(".")[-1] in ("Enum", "IntEnum", "StrEnum") for b in ec.base_names):
+                lit = ec.class_assigns.get(t[2])
+                if name == "name" and lit is not None:
+                    return ("const", t[2])
+                if isinstance(lit, ast.Constant):
+                    return ("const", lit.value)
+        if name in ("value", "name") and t[0] == "global" and isinstance(t[1], str) and "." in t[1]:
+            cq, _, mem = t[1].rpartition(".")
+            ec = self.model.lookup_target(cq)
+            if isinstance(ec, ClassInfo) and any(b.split(".")[-1] in ("Enum", "IntEnum", "StrEnum") for b in ec.base_names):
+                lit = ec.class_assigns.get(mem)
+                if name == "name" and lit is not None:
+                    return ("const", mem)
+                if isinstance(lit, ast.Constant):
+                    return ("const", lit.value)
         if t[0] == "new":
             for f, v in t[2]:
                 if f == name:
@@ -1151,8 +1177,10 @@ class FuncAnalysis:
         init = ci.methods.get("__init__")
         decos = [dotted(d) or "" for d in ci.node.decorator_list]
         is_dc = any(d.split(".")[-1] == "dataclass" or (isinstance(dn, ast.Call) and (dotted(dn.func) or "").split(".")[-1] == "dataclass") for d, dn in zip(decos, ci.node.decorator_list))
-        if ci.base_names and not all(b.split(".")[-1] in ("object", "Generic") or b.startswith("Generic[") for b in ci.base_names):
+        if ci.base_names and not all(b.split(".")[-1] in ("object", "Generic", "NamedTuple") or b.startswith("Generic[") for b in ci.base_names):
             return None
+        if any(b.split(".")[-1] == "NamedTuple" for b in ci.base_names):
+            is_dc = True  # the class form of a NamedTuple: annotated names are the fields, in order
         params: List[Tuple[str, Optional[Term]]] = []
         stores: List[Tuple[str, Term]] = []
         if init is None:
